@@ -33,11 +33,11 @@ Record tn_waitw (w : tg_world) (c : connp) (t : tx) : Prop := mk_tn_wait {
   ww_txs : c_txs c = gw_done w ++ [Some t];
   ww_shift : c_txs_shifted c = 0%nat;
   ww_flags : c_conn_flags c = ax_flags (gw_aux w);
-  ww_onext : c_out_next_tx_index c = ax_onext (gw_aux w) /\ tn_rs c = ax_rs (gw_aux w) }.
+  ww_onext : c_out_next_tx_index c = ax_onext (gw_aux w) /\ tn_rs c = ax_rs (gw_aux w) /\ c_in_content_length c = ax_cl (gw_aux w) }.
 Lemma tn_waitw_finish w c t : tn_waitw w c t -> tn_stable (c_out (ax_rs (gw_aux w))) -> tn_waitw w (tn_fin c) t.
 Proof.
-  intros [A1 A2 A3 A4 A5 A6 A7 A8 A9 A10 A11] S. destruct (tg_forget_fields c) as (F1 & F2 & F3). destruct A11 as [A11 A12].
-  constructor; rewrite ?F1, ?F2, ?F3; try assumption. split; [exact A11|apply tn_rs_fin_stable; assumption].
+  intros [A1 A2 A3 A4 A5 A6 A7 A8 A9 A10 A11] S. destruct (tg_forget_fields c) as (F1 & F2 & F3). destruct A11 as (A11 & A12 & A13).
+  constructor; rewrite ?F1, ?F2, ?F3; try assumption. split; [exact A11|split; [apply tn_rs_fin_stable; assumption|exact A13]].
 Qed.
 
 Lemma tn_connect_number m : wr_eqb m wr_str_connect = true -> (htp_convert_method_to_number m =? c_HTP_M_CONNECT)%Z = true.
@@ -85,7 +85,8 @@ Hypothesis Hst : tn_stable (c_out (ax_rs a0)).
 Hypothesis Hotx : c_out_tx (ax_rs a0) = None.
 
 Let m := wq_method r. Let u := wq_uri r. Let pr := wq_protocol r. Let fs := wq_fields r.
-Let w := mk_tg_world [] a0.
+Let a1 := tg_next_flags [] a0.                         (* after htp_connp_tx_create *)
+Let w := mk_tg_world [] a1.
 Notation tg_cin := (tg_cinw w).
 Notation tg_mid := (tg_midw w).
 Let Tend := sg_tend g 0 r.
@@ -219,16 +220,13 @@ Proof.
     rewrite Hw3. unfold bwt, Tend, sg_tend. apply sg_flat_start; assumption.
 Qed.
 
-Lemma tg_next_flags_nil a : tg_next_flags [] a = a.
-Proof. unfold tg_next_flags. cbn [length]. assert (E : (ax_onext a <? 0)%nat = false) by (apply Nat.ltb_ge; lia). rewrite E. reflexivity. Qed.
-
 (* a call that begins between two requests *)
 Lemma tq_run_idle c d (rw' : bytes) fuel prev :
   tg_idl c d 0 [] [] a0 prev -> d <> [] -> d ++ rw' = (line0 ++ [CR; LF]) ++ bwt -> (6 <= fuel)%nat -> tq_goal d c fuel rw'.
 Proof.
   intros H Hd Hw Hf. assert (Lx : (0 < length d)%nat) by (destruct d; [contradiction|cbn; lia]).
   destruct (tg_pass_idle cb g Hcb c d 0 [] [] a0 prev H Lx ltac:(right; cbn; lia)) as (c1 & E1 & H1).
-  rewrite tg_next_flags_nil in H1. fold w in H1.
+  change (mk_tg_world [] (tg_next_flags [] a0)) with w in H1.
   apply (tq_goal_steps 1 d c c1 fuel rw' (sg_steps_inr cb g c c1 E1) ltac:(lia)).
   apply (tq_run_line c1 d 0 [] (line0 ++ [CR; LF]) rw' _ H1 eq_refl); [|exact Hw|lia].
   intro E. apply app_eq_nil in E. destruct E as [_ E]. discriminate.
@@ -258,19 +256,14 @@ Qed.
 Lemma tq_betw_facts c rw : tq_betw c rw -> rq_inv c /\ tg_live (c_in_status c) /\ tn_rs c = ax_rs a0.
 Proof.
   intros [Hm Erw|p q Hm Hpq Hq Erw|p hdr t Hm Hl].
-  - split; [apply rq_inv_plain; rewrite (gq_state _ _ _ Hm); split; discriminate|]. split; [exact (gq_status _ _ _ Hm)|exact (proj2 (gq_onext _ _ _ Hm))].
-  - split; [apply rq_inv_plain; rewrite (gm_state _ _ _ _ _ _ Hm); split; discriminate|]. split; [exact (gm_status _ _ _ _ _ _ Hm)|exact (proj2 (gm_onext _ _ _ _ _ _ Hm))].
-  - split; [apply rq_inv_plain; rewrite (gm_state _ _ _ _ _ _ Hm); split; discriminate|]. split; [exact (gm_status _ _ _ _ _ _ Hm)|exact (proj2 (gm_onext _ _ _ _ _ _ Hm))].
+  - split; [apply rq_inv_plain; rewrite (gq_state _ _ _ Hm); split; discriminate|]. split; [exact (gq_status _ _ _ Hm)|exact (proj1 (proj2 (gq_onext _ _ _ Hm)))].
+  - split; [apply rq_inv_plain; rewrite (gm_state _ _ _ _ _ _ Hm); split; discriminate|]. split; [exact (gm_status _ _ _ _ _ _ Hm)|exact (proj1 (proj2 (gm_onext _ _ _ _ _ _ Hm)))].
+  - split; [apply rq_inv_plain; rewrite (gm_state _ _ _ _ _ _ Hm); split; discriminate|]. split; [exact (gm_status _ _ _ _ _ _ Hm)|exact (proj1 (proj2 (gm_onext _ _ _ _ _ _ Hm)))].
 Qed.
 
 (* ---- every chunk: the chunks before the last one end inside the request, the last one brings its end (and the glue) ---- *)
-(* what the caller sees of one data call: return code and consumed count *)
-Definition tn_o (r : cp_result) : Z * nat := (r_rc r, r_consumed r).
-Definition tn_rquiet (r : cp_result) : Prop := r_in_status r <> c_HTP_STREAM_TUNNEL.
 Definition tn_last_rc : Z := if (length glue =? 0)%nat then c_HTP_STREAM_DATA else c_HTP_STREAM_DATA_OTHER.
 
-Lemma tn_live_quiet s : tg_live s -> s <> c_HTP_STREAM_TUNNEL.
-Proof. intros [[H|H]|H]; rewrite H; intro E; vm_compute in E; discriminate. Qed.
 
 Lemma tq_chunks : forall (pre : list bytes) c (rw last : bytes), tq_betw c rw -> c_out_status c = c_HTP_STREAM_OPEN ->
   Forall (fun x => x <> []) pre -> last <> [] -> concat pre ++ last = rw -> (length (concat pre) + length glue < length rw)%nat ->
